@@ -132,6 +132,17 @@ fn c10(tier: &str, seed: u64) -> i32 {
 
 // ------------------------------------------------------------------------------- C13
 
+/// rejected at compile time with a message: a syn error, one of the generator's configuration
+/// messages, or a generator panic whose message names the subject (where exactly the rejection
+/// happens - parser or generator - is not part of the property)
+fn rejected_with_message(o: &Outcome, subject: &str) -> bool {
+    match o {
+        Outcome::SynErr(_) | Outcome::ConfigRejected(_) => true,
+        Outcome::Panic(m) => m.to_lowercase().contains(subject) && !m.contains("This's a bug"),
+        _ => false,
+    }
+}
+
 fn handler_legal(kind: &str, ci: usize) -> bool {
     let is_try = CONFIGS[ci].1;
     match kind {
@@ -183,8 +194,8 @@ fn c13(tier: &str, seed: u64) -> i32 {
                             n += 1;
                             nt += 1;
                             *classes.entry("two handlers".into()).or_default() += 1;
-                            if !matches!(o2, Outcome::SynErr(_)) {
-                                violation = Some((text2, ci, format!("a second handler was not rejected by the parser: outcome {:?}", o2)));
+                            if !rejected_with_message(&o2, "handler") {
+                                violation = Some((text2, ci, format!("a second handler was not rejected: outcome {:?}", o2)));
                                 break 'outer;
                             }
                         }
@@ -224,9 +235,10 @@ fn c13(tier: &str, seed: u64) -> i32 {
             if c.1.len() < 2 && c.0 % 1500 == 1 {
                 c.1.push(json!({"input": text, "outcome": format!("{:?}", o).chars().take(80).collect::<String>()}));
             }
-            match o {
-                Outcome::SynErr(_) => Ok(()),
-                other => Err(TestCaseError::fail(format!("two handlers not rejected by the parser: `{}` -> {:?}", text, other))),
+            if rejected_with_message(&o, "handler") {
+                Ok(())
+            } else {
+                Err(TestCaseError::fail(format!("two handlers not rejected: `{}` -> {:?}", text, o)))
             }
         });
         let c = cnt.into_inner();
@@ -323,10 +335,18 @@ fn check_options(seq: &[(usize, usize)], first: &str) -> Result<(), String> {
 fn check_duplicate(seq: &[(usize, usize)], first: &str) -> Result<(), String> {
     let text = format!("{} {}", seq.iter().map(|(o, v)| format!("{}({})", OPTS[*o].0, OPTS[*o].1[*v])).collect::<Vec<_>>().join(" "), first);
     let ts = proc_macro2::TokenStream::from_str(&text).map_err(|e| format!("lex: {}", e))?;
-    match catch_unwind(AssertUnwindSafe(|| syn::parse2::<JoinInputDefault>(ts))) {
-        Err(_) => Err(format!("parser panicked on `{}`", text)),
-        Ok(Err(_)) => Ok(()),
-        Ok(Ok(_)) => Err(format!("`{}`: an option given twice was accepted", text)),
+    let _ = ts;
+    // an async configuration, so that futures_crate_path itself is legal
+    let (o, _) = expand(&text, 4);
+    let ok = match &o {
+        Outcome::SynErr(_) => true,
+        Outcome::Panic(m) | Outcome::ConfigRejected(m) => (m.contains("twice") || m.contains("specified") || m.contains("duplicate")) && !m.contains("This's a bug"),
+        _ => false,
+    };
+    if ok {
+        Ok(())
+    } else {
+        Err(format!("`{}`: an option given twice was accepted ({:?})", text, o).chars().take(400).collect())
     }
 }
 
